@@ -26,6 +26,7 @@ OUTSIDE = [
  'schedules are covered by the one-step induction argument stated in the claim, not by enumerating interleavings',
 ]
 ASSUMPTIONS = [
+ 'harness launch_size (and its pending finding C13-launch-size-float32) is decided on a TRANSCRIPTION of the one-line launch-size expression of the sycl/opencl/cuda/hip contexts, not on the compiled headers (they need the device runtimes)',
  'run_body in kernels/C13_thread.cpp is a line-by-line transcription of the body of nm_cuda_run_function (include/nmtools/array/eval/cuda/context.hpp:10-31; nm_hip_run_function is the same text) with threadIdx.x / blockIdx.x / blockDim.x replaced by parameters, because the header needs the CUDA runtime; everything it calls is the unmodified nmtools code',
  'cuda_create_array (thd_* harnesses) transcribes the shape-copy part of cuda::context_t::create_array (cuda/context.hpp:161-200); the device buffer is the host buffer (cudaMalloc/cudaMemcpy are taken to copy faithfully)',
  'th_* harnesses rebuild operands with create_array<2>(pointer, shape, dim) as the SYCL path does (sycl/context.hpp:100-103)',
